@@ -375,7 +375,7 @@ impl Arena {
     proof {
       assert(s1.list == l.remove(k));
     }
-//@after 1 /self\.pessimistic_dealloc\(st, data_end_offset, remaining\);/
+//@after 1 /_dealloc\(st, data_end_offset, remaining\);/
       proof {
         lemma_first_idx_bounds(s1.list, seg_node(data_end_offset as int, remaining as int).1, true);
         lemma_clear_of_list_insert(s1.list, first_idx(s1.list, seg_node(data_end_offset as int, remaining as int).1, true), seg_node(data_end_offset as int, remaining as int), n.0 as int, data_end_offset as int);
@@ -436,7 +436,7 @@ impl Arena {
     proof {
       assert(s1.list == l.remove(k));
     }
-//@after 1 /self\.optimistic_dealloc\(st, data_end_offset, remaining\);/
+//@after 1 /_dealloc\(st, data_end_offset, remaining\);/
       proof {
         lemma_first_idx_bounds(s1.list, seg_node(data_end_offset as int, remaining as int).1, false);
         lemma_clear_of_list_insert(s1.list, first_idx(s1.list, seg_node(data_end_offset as int, remaining as int).1, false), seg_node(data_end_offset as int, remaining as int), n.0 as int, data_end_offset as int);
@@ -621,8 +621,8 @@ impl Arena {
 //@@fn file=unsync.rs scope="impl Arena {" name=truncate nth=2 xlate=unsync st=mut props=C18
 //@subst /self\.inner\.as_mut\(\)/ => MemTok::of(self)
 //@subst /memory\.truncate\(/ => memory.truncate(st, 
-//@subst /memory\.as_mut_ptr\(\)/ => memory.as_mut_ptr(st)
-//@subst /memory\.cap\(\)/ => memory.cap(st)
+//@subst? /memory\.as_mut_ptr\(\)/ => memory.as_mut_ptr(st)
+//@subst? /memory\.cap\(\)/ => memory.cap(st)
 //@contract
   requires
     wf(old(self).av(), old(st)@),
@@ -635,7 +635,7 @@ impl Arena {
       && final(st)@.list == old(st)@.list && final(st)@.sentinel == old(st)@.sentinel, // [C18]
     final(st)@.bytes.subrange(0, old(st)@.allocated) == old(st)@.bytes.subrange(0, old(st)@.allocated), // [C18]
     wf(final(self).av(), final(st)@), // [C18 C10]
-//@after 1 /self\.cap = memory\.cap\(st\);/
+//@after 1 /self\.cap = /
       proof { lemma_truncate_wf(old(self).av(), self.av(), old(st)@, st@); }
 //@@end
 
@@ -644,8 +644,8 @@ impl Arena {
 //@subst /std::io::Error::new\(\s*std::io::ErrorKind::PermissionDenied,\s*"ARENA is read-only",?\s*\)/ => io_read_only_error()
 //@subst /self\.inner\.as_mut\(\)/ => MemTok::of(self)
 //@subst /memory\.truncate\(/ => memory.truncate_io(st, 
-//@subst /memory\.as_mut_ptr\(\)/ => memory.as_mut_ptr(st)
-//@subst /memory\.cap\(\)/ => memory.cap(st)
+//@subst? /memory\.as_mut_ptr\(\)/ => memory.as_mut_ptr(st)
+//@subst? /memory\.cap\(\)/ => memory.cap(st)
 //@contract
   requires
     wf(old(self).av(), old(st)@),
@@ -660,7 +660,7 @@ impl Arena {
       && final(st)@.list == old(st)@.list && final(st)@.sentinel == old(st)@.sentinel, // [C18]
     final(st)@.bytes.subrange(0, old(st)@.allocated) == old(st)@.bytes.subrange(0, old(st)@.allocated), // [C18]
     wf(final(self).av(), final(st)@), // [C18 C10]
-//@after 1 /self\.cap = memory\.cap\(st\);/
+//@after 1 /self\.cap = /
       proof { lemma_truncate_wf(old(self).av(), self.av(), old(st)@, st@); }
 //@@end
 }
